@@ -123,7 +123,8 @@ class Diverged(Exception):
     legitimately cause: the run is cut there and judged as it stands"""
 
 
-DELIVERY_CAP = 1500     # generated programs stay far below (a few hundred deliveries with the longest tick chains)
+DELIVERY_CAP = 4000     # auto-terminating runs: generated programs stay far below (tick chains up to the far horizon: < 1000)
+HARD_CAP = 20000        # runs with an end time always stop by themselves unless they spin at one instant; same bound as the model's
 
 
 class Harness:
@@ -162,7 +163,7 @@ class Harness:
 
             def handle_event(self, event):
                 H.ndeliv += 1
-                if H.ndeliv > DELIVERY_CAP:
+                if H.ndeliv > (DELIVERY_CAP if prog.get("end") is None else HARD_CAP):
                     raise Diverged()
                 kind = int(event.event_type[1:])
                 meta = event.context.get("metadata") or {}
@@ -418,7 +419,7 @@ class Harness:
         now = self.ents[0].now.nanoseconds
         end = self.prog.get("end")
         if diverged:
-            self.emit_log(f"diverged {now} {DELIVERY_CAP}")
+            self.emit_log(f"diverged {now} {DELIVERY_CAP if end is None else HARD_CAP}")
             self.end_line = f"end {now} diverged"
             self.trace.append(f"end {now} {'inf' if end is None else end}")
             return self.log + [self.end_line]
